@@ -67,7 +67,7 @@ fn check_size_field<const W: usize>(buf: &[u8], at: usize, size: usize) {
     let mut i = 0;
     while i < 8 {
         if i < sl {
-            assert!(buf[at + i] == want[8 - sl + i], "C09b: size field == payload length in exactly the requested width");
+            assert!(buf[at + i] == want[8 - sl + i], "C09/C01b: size field == payload length in exactly the requested width");
         }
         i += 1;
     }
@@ -80,25 +80,25 @@ fn uint_writer<const W: usize, const CLASS: usize>() {
     kani::assume(ref_uint_width(v) == CLASS);
     let mut w = TagWriter::new(Sink::new(SINK));
     let r = w.verif_write_unsigned_int_tag::<W>(flat::U, &v);
-    assert!(r.is_ok(), "C16b: every u64 is writable");
+    assert!(r.is_ok(), "C16/C09/C01b: every u64 is writable");
     let width = CLASS;
     let sl = if W == 0 { 1 } else { W };
     kani::cover!(v == 0 || CLASS > 1, "reached");
     let buf = w.verif_buf();
-    assert!(buf.len() == 1 + sl + width, "C16b: unsigned payload uses the minimal 1/2/4/8-byte width");
-    assert!(buf[0] == flat::U as u8, "C16b: id first");
+    assert!(buf.len() == 1 + sl + width, "C16/C09/C01b: unsigned payload uses the minimal 1/2/4/8-byte width");
+    assert!(buf[0] == flat::U as u8, "C16/C09/C01b: id first");
     check_size_field::<W>(buf, 1, width);
     let be = v.to_be_bytes();
     let mut i = 0;
     while i < 8 {
         if i < width {
-            assert!(buf[1 + sl + i] == be[8 - width + i], "C16b: unsigned payload is big-endian");
+            assert!(buf[1 + sl + i] == be[8 - width + i], "C16/C09/C01b: unsigned payload is big-endian");
         }
         i += 1;
     }
     if W == 0 {
         // (with an explicit width only the size field differs; the payload bytes are asserted above)
-        assert!(matches!(tools::arr_to_u64(&buf[1 + sl..]), Ok(d) if d == v), "C16b: decoder inverts the unsigned encoder");
+        assert!(matches!(tools::arr_to_u64(&buf[1 + sl..]), Ok(d) if d == v), "C16/C09/C01b: decoder inverts the unsigned encoder");
     }
     core::mem::forget(r);
     core::mem::forget(w);
@@ -109,25 +109,25 @@ fn int_writer<const W: usize, const CLASS: usize>() {
     kani::assume(ref_int_width(v) == CLASS);
     let mut w = TagWriter::new(Sink::new(SINK));
     let r = w.verif_write_signed_int_tag::<W>(flat::I, &v);
-    assert!(r.is_ok(), "C16b: every i64 is writable");
+    assert!(r.is_ok(), "C16/C09/C01b: every i64 is writable");
     let width = CLASS;
     let sl = if W == 0 { 1 } else { W };
     kani::cover!(v < 0, "negative value reached");
     kani::cover!(v >= 0, "non-negative value reached");
     let buf = w.verif_buf();
-    assert!(buf.len() == 1 + sl + width, "C16b: signed payload uses the minimal 1/2/4/8-byte two's-complement width");
-    assert!(buf[0] == flat::I as u8, "C16b: id first");
+    assert!(buf.len() == 1 + sl + width, "C16/C09/C01b: signed payload uses the minimal 1/2/4/8-byte two's-complement width");
+    assert!(buf[0] == flat::I as u8, "C16/C09/C01b: id first");
     check_size_field::<W>(buf, 1, width);
     let be = v.to_be_bytes();
     let mut i = 0;
     while i < 8 {
         if i < width {
-            assert!(buf[1 + sl + i] == be[8 - width + i], "C16b: signed payload is big-endian two's complement");
+            assert!(buf[1 + sl + i] == be[8 - width + i], "C16/C09/C01b: signed payload is big-endian two's complement");
         }
         i += 1;
     }
     if W == 0 {
-        assert!(matches!(tools::arr_to_i64(&buf[1 + sl..]), Ok(d) if d == v), "C16b: decoder inverts the signed encoder");
+        assert!(matches!(tools::arr_to_i64(&buf[1 + sl..]), Ok(d) if d == v), "C16/C09/C01b: decoder inverts the signed encoder");
     }
     core::mem::forget(r);
     core::mem::forget(w);
@@ -174,13 +174,13 @@ fn float_writer<const W: usize>() {
     let v = f64::from_bits(bits);
     let mut w = TagWriter::new(Sink::new(SINK));
     let r = w.verif_write_float_tag::<W>(flat::F, &v);
-    assert!(r.is_ok(), "C16b: every f64 is writable");
+    assert!(r.is_ok(), "C16/C09/C01b: every f64 is writable");
     let sl = if W == 0 { 1 } else { W };
     let buf = w.verif_buf();
-    assert!(buf.len() == 1 + sl + 8 && buf[0] == flat::F as u8, "C16b: float is written as 8 bytes");
+    assert!(buf.len() == 1 + sl + 8 && buf[0] == flat::F as u8, "C16/C09/C01b: float is written as 8 bytes");
     check_size_field::<W>(buf, 1, 8);
-    assert!(ref_be_u64(&buf[1 + sl..], 8) == bits, "C16b: float payload is the IEEE-754 bit pattern, big-endian");
-    assert!(matches!(tools::arr_to_f64(&buf[1 + sl..]), Ok(d) if d.to_bits() == bits), "C16b: decoder inverts the float encoder bit for bit");
+    assert!(ref_be_u64(&buf[1 + sl..], 8) == bits, "C16/C09/C01b: float payload is the IEEE-754 bit pattern, big-endian");
+    assert!(matches!(tools::arr_to_f64(&buf[1 + sl..]), Ok(d) if d.to_bits() == bits), "C16/C09/C01b: decoder inverts the float encoder bit for bit");
     kani::cover!(v.is_nan(), "NaN reached");
     core::mem::forget(r);
     core::mem::forget(w);
@@ -197,11 +197,11 @@ fn c09_id_bytes() {
     kani::cover!(nbytes == 1, "1-byte id reached");
     let mut w = TagWriter::new(Sink::new(SINK));
     let r = w.verif_write_binary_tag::<0>(id, &[]);
-    assert!(r.is_ok(), "C09b: empty binary element is writable");
+    assert!(r.is_ok(), "C09/C01b: empty binary element is writable");
     let buf = w.verif_buf();
-    assert!(buf.len() == nbytes + 1, "C09b: id is emitted in exactly its own byte length");
-    assert!(ref_be_u64(buf, nbytes) == id, "C09b: id bytes are emitted unchanged, big-endian");
-    assert!(buf[nbytes] == 0x80, "C09b: empty payload has size field 0");
+    assert!(buf.len() == nbytes + 1, "C09/C01b: id is emitted in exactly its own byte length");
+    assert!(ref_be_u64(buf, nbytes) == id, "C09/C01b: id bytes are emitted unchanged, big-endian");
+    assert!(buf[nbytes] == 0x80, "C09/C01b: empty payload has size field 0");
     core::mem::forget(r);
     core::mem::forget(w);
 }
@@ -218,24 +218,24 @@ fn end_tag_shape<const W: usize, const CONTENT: usize>() {
     let mut w = TagWriter::new(Sink::new(SINK));
     w.verif_seed(vec![(tree::A, EBMLSize::Known(2), W)], buf);
     let r = w.verif_end_tag(tree::A);
-    assert!(r.is_ok(), "C09a: closing the innermost master with a representable size succeeds");
-    assert!(w.verif_open().is_empty(), "C09a: the master is closed");
+    assert!(r.is_ok(), "C09/C01/C10a: closing the innermost master with a representable size succeeds");
+    assert!(w.verif_open().is_empty(), "C09/C01/C10a: the master is closed");
     let out = w.verif_buf();
     let sl = if W == 0 { 1 } else { W };
-    assert!(out.len() == 2 + 1 + sl + CONTENT, "C09a: header of id + size field of the requested width inserted");
-    assert!(out[0] == pre[0] && out[1] == pre[1], "C09a: bytes before the master are untouched");
-    assert!(out[2] == tree::A as u8, "C09a: id at the master's start");
+    assert!(out.len() == 2 + 1 + sl + CONTENT, "C09/C01/C10a: header of id + size field of the requested width inserted");
+    assert!(out[0] == pre[0] && out[1] == pre[1], "C09/C01/C10a: bytes before the master are untouched");
+    assert!(out[2] == tree::A as u8, "C09/C01/C10a: id at the master's start");
     let want = ref_vint_fixed(CONTENT as u64, sl);
     let mut i = 0;
     while i < 8 {
         if i < sl {
-            assert!(out[3 + i] == want[8 - sl + i], "C09a: size field == content length in exactly the requested width");
+            assert!(out[3 + i] == want[8 - sl + i], "C09/C01/C10a: size field == content length in exactly the requested width");
         }
         i += 1;
     }
     let mut j = 0;
     while j < CONTENT {
-        assert!(out[3 + sl + j] == content[j], "C09a: content bytes unchanged and in order");
+        assert!(out[3 + sl + j] == content[j], "C09/C01/C10a: content bytes unchanged and in order");
         j += 1;
     }
     kani::cover!(CONTENT == 0 || content[0] != 0, "non-zero content reached");
@@ -281,12 +281,12 @@ fn c01w_binary_len_126_128() {
     let payload = [0u8; 128];
     let mut w = TagWriter::new(Sink::new(SINK));
     let r = w.verif_write_binary_tag::<0>(flat::B, &payload[..n]);
-    assert!(r.is_ok(), "C01w: 126..128-byte payload is writable");
+    assert!(r.is_ok(), "C01/C09w: 126..128-byte payload is writable");
     let buf = w.verif_buf();
     let rs = reader_size(&buf[1..buf.len() - n]);
     kani::cover!(n == 127, "length 127 reached");
     assert!(matches!(rs, Some((RefSize::Known(s), l)) if s == n as u64 && 1 + l + n == buf.len()),
-        "C01w: size field of a 126..128-byte payload reads back as that known size (never the reserved all-ones pattern)");
+        "C01/C09w: size field of a 126..128-byte payload reads back as that known size (never the reserved all-ones pattern)");
     core::mem::forget(r);
     core::mem::forget(w);
 }
@@ -300,11 +300,11 @@ fn c01w_end_tag_content_127() {
     let mut w = TagWriter::new(Sink::new(SINK));
     w.verif_seed(vec![(tree::A, EBMLSize::Known(0), 0)], buf);
     let r = w.verif_end_tag(tree::A);
-    assert!(r.is_ok(), "C01w: a master with 127 content bytes can be closed");
+    assert!(r.is_ok(), "C01/C09w: a master with 127 content bytes can be closed");
     let out = w.verif_buf();
     let rs = reader_size(&out[1..out.len() - 127]);
     assert!(matches!(rs, Some((RefSize::Known(127), l)) if 1 + l + 127 == out.len()),
-        "C01w: a master with 127 content bytes is written with known size 127 (never the reserved all-ones pattern)");
+        "C01/C09w: a master with 127 content bytes is written with known size 127 (never the reserved all-ones pattern)");
     core::mem::forget(r);
     core::mem::forget(w);
 }
@@ -351,13 +351,13 @@ fn c19_binary_width1_overflow() {
     let r = w.verif_write_binary_tag::<1>(tree::L2, &payload[..n]);
     kani::cover!(n == 127, "reserved value 127 reached");
     if n >= 127 {
-        assert!(r.is_err(), "C19: a size that width 1 cannot represent is rejected");
+        assert!(r.is_err(), "C19/C09: a size that width 1 cannot represent is rejected");
     }
     if r.is_err() {
         let after = snap(&w);
-        assert!(same(&before, &after), "C19: rejected explicit-width write leaves buffer, open masters and destination untouched");
+        assert!(same(&before, &after), "C19/C09: rejected explicit-width write leaves buffer, open masters and destination untouched");
     } else {
-        assert!(n == 126, "C09b: width 1 holds sizes up to 126");
+        assert!(n == 126, "C09/C01b: width 1 holds sizes up to 126");
     }
     core::mem::forget(r);
     core::mem::forget(w);
@@ -371,9 +371,9 @@ fn end_tag_wrong_id(other: u64, inner: EBMLSize) {
     w.verif_seed(vec![(tree::ROOT, EBMLSize::Known(0), 0), (tree::A, inner, 0)], pre.to_vec());
     let before = snap(&w);
     let r = w.verif_end_tag(other);
-    assert!(r.is_err(), "C19: closing a master that is not the innermost open one is rejected");
+    assert!(r.is_err(), "C19/C09: closing a master that is not the innermost open one is rejected");
     let after = snap(&w);
-    assert!(same(&before, &after), "C19: rejected End leaves the open masters and the buffer untouched");
+    assert!(same(&before, &after), "C19/C09: rejected End leaves the open masters and the buffer untouched");
     kani::cover!(pre[0] != 0, "non-zero buffered byte reached");
     core::mem::forget(r);
     core::mem::forget(w);
@@ -411,9 +411,9 @@ fn c19_end_tag_no_open() {
     let mut w = TagWriter::new(Sink::new(SINK));
     let before = snap(&w);
     let r = w.verif_end_tag(other);
-    assert!(r.is_err(), "C19: closing with nothing open is rejected");
+    assert!(r.is_err(), "C19/C09: closing with nothing open is rejected");
     let after = snap(&w);
-    assert!(same(&before, &after), "C19: rejected End leaves state untouched");
+    assert!(same(&before, &after), "C19/C09: rejected End leaves state untouched");
     core::mem::forget(r);
     core::mem::forget(w);
 }
@@ -425,9 +425,9 @@ fn end_tag_width1_overflow<const N: usize>() {
     let mut w = TagWriter::new(Sink::new(SINK));
     w.verif_seed(vec![(tree::ROOT, EBMLSize::Known(0), 1)], buf);
     let r = w.verif_end_tag(tree::ROOT);
-    assert!(r.is_err(), "C19: content that the requested size width cannot describe is rejected");
-    assert!(w.verif_open().len() == 1 && w.verif_open()[0] == (tree::ROOT, EBMLSize::Known(0), 1), "C19: rejected End leaves the master open");
-    assert!(w.verif_buf().len() == N, "C19: rejected End leaves the buffer untouched");
+    assert!(r.is_err(), "C19/C09: content that the requested size width cannot describe is rejected");
+    assert!(w.verif_open().len() == 1 && w.verif_open()[0] == (tree::ROOT, EBMLSize::Known(0), 1), "C19/C09: rejected End leaves the master open");
+    assert!(w.verif_buf().len() == N, "C19/C09: rejected End leaves the buffer untouched");
     kani::cover!(w.verif_buf().len() == N, "reached");
     core::mem::forget(r);
     core::mem::forget(w);
@@ -451,9 +451,9 @@ fn c19_unknown_size_non_master() {
     let before = snap(&w);
     let tag = TreeTag::new(tree::L1, Val::U(v));
     let r = w.write_advanced(&tag, WriteOptions::is_unknown_sized_element());
-    assert!(r.is_err(), "C19: unknown size on a non-master is rejected");
+    assert!(r.is_err(), "C19/C09: unknown size on a non-master is rejected");
     let after = snap(&w);
-    assert!(same(&before, &after), "C19: rejected unknown-size write leaves state untouched");
+    assert!(same(&before, &after), "C19/C09: rejected unknown-size write leaves state untouched");
     core::mem::forget(r);
     core::mem::forget(w);
 }
@@ -470,9 +470,9 @@ fn c19_raw_malformed_id() {
     let before = snap(&w);
     let tag = TreeTag::new(id, Val::Raw(&[1, 2]));
     let r = w.write(&tag);
-    assert!(matches!(r, Err(TagWriterError::TagIdError(e)) if e == id), "C19: a raw tag with a malformed id is rejected with the id error");
+    assert!(matches!(r, Err(TagWriterError::TagIdError(e)) if e == id), "C19/C09: a raw tag with a malformed id is rejected with the id error");
     let after = snap(&w);
-    assert!(same(&before, &after), "C19: rejected raw tag leaves state untouched");
+    assert!(same(&before, &after), "C19/C09: rejected raw tag leaves state untouched");
     kani::cover!(id == 1, "id 1 reached");
     kani::cover!(id >= 1 << 63, "id >= 2^63 reached");
     core::mem::forget(r);
@@ -494,9 +494,9 @@ fn c19_full_invalid_child() {
     let tag = TreeTag::full(tree::A, vec![TreeTag::new(tree::L3, Val::U(u))]);
     let _ = v;
     let r = w.write(&tag);
-    assert!(matches!(r, Err(TagWriterError::UnexpectedTag { tag_id, .. }) if tag_id == tree::L3), "C19: Full master with a misplaced child is rejected with the child's id");
+    assert!(matches!(r, Err(TagWriterError::UnexpectedTag { tag_id, .. }) if tag_id == tree::L3), "C19/C09: Full master with a misplaced child is rejected with the child's id");
     let after = snap(&w);
-    assert!(same(&before, &after), "C19: rejected Full master leaves no open master and no bytes behind");
+    assert!(same(&before, &after), "C19/C09: rejected Full master leaves no open master and no bytes behind");
     kani::cover!(u > 0xFFFF_FFFF, "8-byte child value reached");
     core::mem::forget(r);
     core::mem::forget(w);
@@ -522,24 +522,24 @@ fn bytes_writer<const W: usize, const UTF8: bool>() {
     } else {
         w.verif_write_binary_tag::<W>(flat::B2, &payload[..n])
     };
-    assert!(r.is_ok(), "C09b: small payload is writable in every width");
+    assert!(r.is_ok(), "C09/C01b: small payload is writable in every width");
     let sl = if W == 0 { 1 } else { W };
     let idl = if UTF8 { 1 } else { 2 };
     let buf = w.verif_buf();
     kani::cover!(n == 0, "empty payload reached");
     kani::cover!(n == 3, "3-byte payload reached");
-    assert!(buf.len() == 2 + idl + sl + n, "C09b: element appended after the buffered bytes: id, size field of the requested width, payload");
+    assert!(buf.len() == 2 + idl + sl + n, "C09/C01b: element appended after the buffered bytes: id, size field of the requested width, payload");
     assert!(buf[0] == pre[0] && buf[1] == pre[1], "C10: earlier buffered bytes are untouched");
     if UTF8 {
-        assert!(buf[2] == flat::S as u8, "C09b: id emitted unchanged");
+        assert!(buf[2] == flat::S as u8, "C09/C01b: id emitted unchanged");
     } else {
-        assert!(buf[2] == 0x40 && buf[3] == 0x87, "C09b: 2-byte id emitted unchanged");
+        assert!(buf[2] == 0x40 && buf[3] == 0x87, "C09/C01b: 2-byte id emitted unchanged");
     }
     check_size_field::<W>(buf, 2 + idl, n);
     let mut i = 0;
     while i < 3 {
         if i < n {
-            assert!(buf[2 + idl + sl + i] == payload[i], "C09b: payload bytes emitted unchanged and in order");
+            assert!(buf[2 + idl + sl + i] == payload[i], "C09/C01b: payload bytes emitted unchanged and in order");
         }
         i += 1;
     }
@@ -574,12 +574,12 @@ fn utf8_width1<const N: usize>() {
     let r = w.verif_write_utf8_tag::<1>(flat::S, text);
     kani::cover!(pre[0] != 0, "non-zero buffered byte reached");
     if N >= 127 {
-        assert!(r.is_err(), "C19: a size that width 1 cannot represent is rejected");
+        assert!(r.is_err(), "C19/C09: a size that width 1 cannot represent is rejected");
         let after = snap(&w);
-        assert!(same(&before, &after), "C19: rejected explicit-width utf8 write leaves buffer, open masters and destination untouched");
+        assert!(same(&before, &after), "C19/C09: rejected explicit-width utf8 write leaves buffer, open masters and destination untouched");
     } else {
-        assert!(r.is_ok(), "C09b: width 1 holds sizes up to 126");
-        assert!(w.verif_buf().len() == 2 + 2 + N && w.verif_buf()[2] == flat::S as u8 && w.verif_buf()[3] == 0x80 | N as u8, "C09b: id and 1-byte size field");
+        assert!(r.is_ok(), "C09/C01b: width 1 holds sizes up to 126");
+        assert!(w.verif_buf().len() == 2 + 2 + N && w.verif_buf()[2] == flat::S as u8 && w.verif_buf()[3] == 0x80 | N as u8, "C09/C01b: id and 1-byte size field");
     }
     core::mem::forget(r);
     core::mem::forget(w);
@@ -604,15 +604,15 @@ fn c09_width_dispatch() {
     w.verif_seed(vec![(tree::ROOT, EBMLSize::Known(0), 0)], Vec::new());
     let tag = TreeTag::new(tree::VOID, Val::B(&[]));
     let r = w.write_advanced(&tag, WriteOptions::set_size_byte_count(wd));
-    assert!(r.is_ok(), "C09b: empty binary element is writable with every size width");
+    assert!(r.is_ok(), "C09/C01b: empty binary element is writable with every size width");
     let buf = w.verif_buf();
-    assert!(buf.len() == 1 + wd, "C09b: the requested size width is honoured exactly by the public API");
-    assert!(buf[0] == tree::VOID as u8, "C09b: id emitted unchanged");
+    assert!(buf.len() == 1 + wd, "C09/C01b: the requested size width is honoured exactly by the public API");
+    assert!(buf[0] == tree::VOID as u8, "C09/C01b: id emitted unchanged");
     let want = ref_vint_fixed(0, wd);
     let mut i = 0;
     while i < 8 {
         if i < wd {
-            assert!(buf[1 + i] == want[8 - wd + i], "C09b: size field of the requested width encodes 0");
+            assert!(buf[1 + i] == want[8 - wd + i], "C09/C01b: size field of the requested width encodes 0");
         }
         i += 1;
     }
@@ -657,24 +657,32 @@ fn c09_unknown_size_equivalence() {
 
 // ------------------------------------------------------------------ C09d: short writes of the destination
 fn flush_short_writes<const K: usize>() {
+    flush_short_writes_n::<K>(None)
+}
+
+/// `fixed`: concrete number of buffered bytes (keeps the witness extraction of a failure cheap)
+fn flush_short_writes_n<const K: usize>(fixed: Option<usize>) {
     let content: [u8; 7] = kani::any();
-    let n: usize = kani::any();
+    let n: usize = match fixed {
+        Some(n) => n,
+        None => kani::any(),
+    };
     kani::assume(n <= 7);
     let mut w = TagWriter::new(Sink::new(K));
     w.verif_seed(Vec::new(), content[..n].to_vec());
     let r = w.verif_private_flush();
-    assert!(r.is_ok(), "C09d: flushing into an accepting destination succeeds");
-    assert!(w.verif_buf().is_empty(), "C09d: the working buffer is emptied");
+    assert!(r.is_ok(), "C09/C10d: flushing into an accepting destination succeeds");
+    assert!(w.verif_buf().is_empty(), "C09/C10d: the working buffer is emptied");
     let d = w.get_ref();
-    assert!(d.len == n, "C09d: every buffered byte is delivered exactly once however short the writes are");
+    assert!(d.len == n, "C09/C10d: every buffered byte is delivered exactly once however short the writes are");
     let mut i = 0;
     while i < 7 {
         if i < n {
-            assert!(d.data[i] == content[i], "C09d: delivered bytes equal the buffered bytes in order");
+            assert!(d.data[i] == content[i], "C09/C10d: delivered bytes equal the buffered bytes in order");
         }
         i += 1;
     }
-    kani::cover!(n == 7, "7 bytes through short writes reached");
+    kani::cover!(fixed.is_some() || n == 7, "7 bytes through short writes reached");
     core::mem::forget(r);
     core::mem::forget(w);
 }
@@ -685,6 +693,10 @@ fn c09_flush_short_1() { flush_short_writes::<1>() }
 wstubs! {
 #[kani::unwind(10)]
 fn c09_flush_short_3() { flush_short_writes::<3>() }
+}
+wstubs! {
+#[kani::unwind(10)]
+fn c09_flush_short_2_of_5() { flush_short_writes_n::<2>(Some(5)) }
 }
 
 // ------------------------------------------------------------------ C10: flush contract of a public write
